@@ -302,7 +302,7 @@ def coq_build(target_v, force=(), per_file_timeout=1200):
 
 
 
-def prove(pid, allowed_axioms=()):
+def prove(pid, allowed_axioms=(), tier='quick'):
     target = 'Properties_%s' % pid
     res = {'ok': False, 'obligations': 0, 'discharged': 0, 'errors': [], 'assumptions': {}, 'files': [], 'cmd': ''}
     files = coq_closure(target + '.v')
@@ -348,6 +348,24 @@ def prove(pid, allowed_axioms=()):
                     res['errors'].append('theorem depends on axiom not in the allowed list: ' + ax)
     nprint = len(re.findall(r'Print\s+Assumptions', strip_comments(open(os.path.join(COQ, target + '.v')).read())))
     res['print_assumptions'] = nprint
+    if tier == 'thorough' and rc == 0:
+        # independent re-check of the compiled files and everything they depend on
+        try:
+            crc, cout, cerr = sh(['timeout', '1800', 'coqchk', '-o', '-silent', '-Q', '.', 'V', 'V.' + target], cwd=COQ, timeout=1900)
+        except subprocess.TimeoutExpired:
+            crc, cout, cerr = 124, '', 'coqchk timed out'
+        summ = (cout + cerr)
+        i = summ.find('CONTEXT SUMMARY')
+        res['coqchk'] = {'rc': crc, 'summary': ' '.join(summ[i:].split())[:1500] if i >= 0 else ' '.join(summ.split())[-600:]}
+        if crc != 0:
+            res['errors'].append('coqchk failed: ' + res['coqchk']['summary'][-300:])
+        else:
+            m = re.search(r'\* Axioms:(.*?)\* Constants', summ, re.S)
+            axs = [] if not m or '<none>' in m.group(1) else [a.strip() for a in m.group(1).split('\n') if a.strip()]
+            res['coqchk']['axioms'] = axs
+            for a in axs:
+                if not any(a.endswith(x) or x in a for x in allowed_axioms):
+                    res['errors'].append('coqchk lists an axiom outside the allowed list: ' + a)
     res['ok'] = (rc == 0 and not res['errors'] and res['discharged'] == res['obligations'] and res['obligations'] > 0)
     return res
 
@@ -580,7 +598,7 @@ def check(pid, tier, replay=None):
 
     # 1. translate + 2. prove
     tproblems = coq_prepare()
-    pr = prove(pid, getattr(P, 'ALLOWED_AXIOMS', ()))
+    pr = prove(pid, getattr(P, 'ALLOWED_AXIOMS', ()), tier)
     # a translator problem counts for this property only if the generated file it belongs to is in the property's import closure
     def relevant(p):
         m = re.match(r'(C\d+): ', p)
@@ -779,6 +797,7 @@ def finish(pid, tier, seed, t0, pr, P, cases, metas, impl_obs, status, notes, kn
             'trusted_base': getattr(P, 'TRUSTED_BASE', []) + COMMON_TB,
             'proof_files': pr['files'],
             'print_assumptions': pr['assumptions'],
+            'coqchk': pr.get('coqchk'),
             'property_theorems_with_print_assumptions': pr.get('print_assumptions', 0),
             'evaluations': len(cases), 'distinct_nontrivial': stats.get('nontrivial', 0),
             'rule': getattr(P, 'RULE', ''),
